@@ -163,7 +163,11 @@ def run_method(chooser, op, profile=None, pre_ops=()):
     if exc is not None:
         viols.append((f"raise:{ckey}", f"{where}: raised {type(exc).__name__}: {exc}"))
     failing = _failing(faults, method)
-    if failing and exc is None:
+    # command()/query() deliberately ignore I/O exceptions for R / RB / BL (the board leaves the
+    # bus); for exactly these only "no exception escapes" is asserted - interpretation (ii)
+    exempt = method in ("command", "query") and ref_name(args[0]).lower() in EXEMPT and \
+        any(kind in ("write_exc", "read_exc") for _t, kind, _v in faults)
+    if failing and exc is None and not exempt:
         if not is_failure_value(ret):
             viols.append((f"value:{ckey}", f"{where}: the exchange failed but the method returned "
                           f"{ret!r}, not its failure value"))
@@ -289,7 +293,11 @@ def _dispatch(job):
 
 
 def run(ctx):
-    ops = operations()
+    # command('RB') / command('BL') are never answered by a conforming board (it leaves the bus);
+    # they are covered as primitives in (a) - where silence is the expected failing outcome -
+    # and are left out of the per-method / alignment parts, whose baseline is a prompt reply
+    ops = [op for op in operations()
+           if not (op[1] in ("command", "query") and ref_name(op[2][0]).lower() in ("rb", "bl"))]
     prim_bound = ctx.pick(2, 3)
     meth_bound = ctx.pick(2, 3)
     jobs = [("prim", (kind, req, prim_bound)) for kind in ("command", "query") for req in REQUESTS]
